@@ -452,6 +452,24 @@ class Exec:
     def e_BoolOp(self, node, st):
         # short-circuit, value semantics restricted to truthiness when operands are not plain bools
         is_and = isinstance(node.op, ast.And)
+        # pure, total, boolean operands: no need to fork (short-circuiting is unobservable)
+        try:
+            vals = []
+            for sub in node.values:
+                npc, nh = len(st.pc), len(st.hyps)
+                rs = self.eval(sub, st.fork())
+                if len(rs) != 1 or isinstance(rs[0][0], Exc) or len(rs[0][1].pc) != npc or len(rs[0][1].hyps) != nh:
+                    vals = None
+                    break
+                v = self.deref(rs[0][0], st)
+                if not isinstance(v, VBool):
+                    vals = None
+                    break
+                vals.append(v.t)
+            if vals is not None:
+                return [(VBool(z3.And(*vals) if is_and else z3.Or(*vals)), st)]
+        except Unsupported:
+            pass
 
         def go(k, s):
             outs = []
